@@ -1,6 +1,9 @@
 """C12 - parsing and matching never crash; comments and rejected lines are inert (DESIGN.md section 6/C12)."""
 import os
 
+import json
+
+import linekindcheck
 import storagecheck
 import vf
 
@@ -11,7 +14,8 @@ def run(ctx):
                 "event validated by Trace_Lines (trichotomy nothing/rule/error, text = trimmed line, list id kept, no crash outcome); "
                 "spec -> code: MC_Storage storages replayed with their noise lines removed and with the other line ending - scan and "
                 "engine answers must not change. distinct_nontrivial = storages containing noise lines + parse events yielding a rule")
-    ctx.assumptions = ["'rejected' is whatever the real NewRule rejects; exact classification is asserted only for blank lines and '!' comments"]
+    ctx.assumptions = ["Trace_Lines: 'rejected' is whatever the real NewRule rejects; the exact classification is the subject of LineKind.tla "
+                       "(blank = space or tab; which fields are address literals is decided by net/netip and handed to the model)"]
     quick = ctx.tier == "quick"
     storagecheck.run(ctx, [(2, 2, [4096, 9000]), (3, 1, [])] if quick else [(3, 2, [4096, 9000])], noise=True,
                      only=lambda m: m["store"] in ("denoised", "other-eol") or "panic" in m["why"])
@@ -38,6 +42,14 @@ def run(ctx):
             ctx.report("%s of line %r: outcome %s %s (text %r)" % (e["ev"], line[:200], e["outcome"], e.get("detail", "")[:300],
                                                                     bytes(e["text"]).decode("latin-1")[:100]),
                        {"reexec": ["drive-lines"], "event": e}, {"cause": e["outcome"], "ev": e["ev"]})
+    # ---- what a line IS: spec/LineKind.tla against rules.NewRule (comment / cosmetic / hosts entry / network rule candidate) ----
+    ctx.rule += ("; classification: every line of <= %d tokens of a 20-token alphabet with LineKind!Meaning replayed into NewRule (and, "
+                 "every 7th, through a RuleScanner), plus random longer lines validated by Trace_LineKind" % (3 if quick else 4))
+    linekindcheck.run(ctx, 3 if quick else 4, 20000 if quick else 300000)
 
 
-replay = storagecheck.replay
+def replay(ctx, path):
+    obj = json.load(open(path))
+    if obj.get("reexec") == ["replay-linekind"]:
+        return linekindcheck.replay(ctx, obj)
+    return storagecheck.replay(ctx, path)
